@@ -10,6 +10,7 @@ mod o_unify;
 mod o_compare;
 mod o_listops;
 mod o_globals;
+mod o_rename;
 
 use std::panic;
 
@@ -29,6 +30,7 @@ fn oracles() -> Vec<(&'static str, Enumerate, Check)> {
         ("c16_append", o_listops::enum_append, o_listops::check_append),
         ("c22_make_query", o_globals::enum_make_query, o_globals::check_make_query),
         ("c10_counter", o_globals::enum_counter, o_globals::check_counter),
+        ("c10_rename", o_rename::enum_rename, o_rename::check_rename),
         ("c06_keeps", o_unify::enum_keeps, o_unify::check_keeps),
     ]
 }
